@@ -806,20 +806,31 @@ func genMpcsetup(g *gen, cn string, c c17Curve) {
 		}
 	}
 	updMuts := []string{"none", "n1Set", "n1Scale", "n2Set", "n2Scale", "allScale", "n1Swap", "chal", "dst", "proofOther"}
-	for _, sh := range [][2]int{{1, 1}, {3, 2}, {0, 2}, {4, 0}, {g.budget(6, 20), 1}} {
+	// shapes (#G1 values, #G2 values): every combination around max = 2 (the random-coefficient vector of the batched
+	// same-ratio check has a special case there), one larger. The element-wise substitutions run at EVERY index of a
+	// small group (first / last / one random index of the large one): a check that ignores one position is seen whatever
+	// the position.
+	for _, sh := range [][2]int{{1, 1}, {3, 2}, {0, 2}, {4, 0}, {2, 2}, {2, 1}, {1, 2}, {2, 0}, {0, 1}, {g.budget(6, 20), 1}} {
 		as, bs := g.scalars(r, sh[0]), g.scalars(r, sh[1])
 		for _, mut := range updMuts {
 			if mut[1] == '1' && sh[0] == 0 || mut[1] == '2' && sh[1] == 0 {
 				continue
 			}
-			i := 0
-			if mut[1] == '1' && sh[0] > 0 {
-				i = g.rng.intn(sh[0])
+			idxs := []int{0}
+			if size := map[byte]int{'1': sh[0], '2': sh[1]}[mut[1]]; size > 0 && mut != "n1Swap" {
+				idxs = idxs[:0]
+				for i := 0; i < size; i++ {
+					if size <= 4 || i == 0 || i == size-1 {
+						idxs = append(idxs, i)
+					}
+				}
+				if size > 4 {
+					idxs = append(idxs, 1+g.rng.intn(size-2))
+				}
 			}
-			if mut[1] == '2' && sh[1] > 0 {
-				i = g.rng.intn(sh[1])
+			for _, i := range idxs {
+				g.emit("C17 mpcsetup %s kind=update a=%s b=%s c=%x x=%s mut=%s i=%x m=%s", cn, showL(as), showL(bs), g.rng.intn(1000), hexBig(g.nzScalar(r)), mut, i, hexBig(g.nzScalar(r)))
 			}
-			g.emit("C17 mpcsetup %s kind=update a=%s b=%s c=%x x=%s mut=%s i=%x m=%s", cn, showL(as), showL(bs), g.rng.intn(1000), hexBig(g.nzScalar(r)), mut, i, hexBig(g.nzScalar(r)))
 		}
 	}
 	// SameRatioMany: geometric sequences with a common ratio, then one element / one ratio perturbed
